@@ -353,7 +353,11 @@ class FakeRedis(object):
         self._cmd('keys', pattern)
         p = _rb(pattern)
         assert p.endswith(b'*') and b'*' not in p[:-1]
-        return [k for k in self.data.keys() if k.startswith(p[:-1])]
+        # KEYS order is unspecified: hashes in ascending id order, other keys (the list) last
+        def order(k):
+            tail = k.rsplit(b':', 1)[-1]
+            return (0, int(tail), k) if tail.isdigit() else (1, 0, k)
+        return sorted((k for k in self.data.keys() if k.startswith(p[:-1])), key=order)
 
     def rpush(self, key, *values):
         self._cmd('rpush', _rb(key))
